@@ -191,7 +191,7 @@ Proof. vm_compute. split; reflexivity. Qed.
    a correct formatter returns for [ex_api], with two comments kept in place *)
 Definition ex_case : case :=
   mkCase None None true (print ex_api) [(0, "// head"); (3, "// after syntax")] [false; true] (Some ex_api) OOk OOk
-         (print (norm ex_api)) [(0, "// head"); (3, "// after   syntax ")] (Some (norm ex_api)) true true true true [OErr; OOk].
+         (print (norm ex_api)) [(0, "// head"); (3, "// after   syntax ")] (Some (norm ex_api)) true true true true true [OErr; OOk].
 
 Example ex_case_checked : agrees ex_case = true /\ prop_ok ex_case = true.
 Proof. vm_compute. split; reflexivity. Qed.
